@@ -124,7 +124,11 @@ class ethernet(packet_base):
     self.hdr_len = ethernet.MIN_LEN
     self.payload_len = alen - self.hdr_len
 
-    self.next = ethernet.parse_next(self, self.type, raw, ethernet.MIN_LEN)
+    try:
+      self.next = ethernet.parse_next(self, self.type, raw, ethernet.MIN_LEN)
+    except RecursionError:
+      # Absurdly deeply nested headers: leave the payload undecoded
+      self.next = raw[ethernet.MIN_LEN:]
     self.parsed = True
 
   @staticmethod
